@@ -143,3 +143,25 @@ def oxi_parse_lines(lines):
 def mat_seq(items):
     """Several materialize_set calls in THIS process, in the given order: [{'config','cwd'}] -> list of results."""
     return [mat_set(it['config'], it.get('cwd')) for it in items]
+
+
+def canon_values(values, datatype, termtype='http://w3id.org/rml/Literal', kind='reference'):
+    """Drives materializer._materialize_template on one-row frames: the rendered object term for each value under the
+    given datatype (the canonicalisation + escaping path), or the exception."""
+    import pandas as pd
+    from morph_kgc.args_parser import load_config_from_argument
+    from morph_kgc import materializer as M
+    from morph_kgc.constants import RML_REFERENCE, RML_TEMPLATE
+    cfg = load_config_from_argument('[CONFIGURATION]\nlogging_level=ERROR\n')
+    out = []
+    for v in values:
+        try:
+            df = pd.DataFrame({'v': [v]}, dtype=str)
+            if kind == 'reference':
+                r = M._materialize_template(df, 'v', RML_REFERENCE, cfg, 'object', termtype=termtype, datatype=datatype)
+            else:
+                r = M._materialize_template(df, 'x{v}y', RML_TEMPLATE, cfg, 'object', termtype=termtype, datatype=datatype)
+            out.append({'v': str(r['object'][0])})
+        except Exception as e:
+            out.append(_bucket(e))
+    return out
